@@ -42,6 +42,12 @@ CHECKS = {
  "C06": ("runtime invariant monitor on every graph returned by the npm resolver over generated universes, and on the final install tree handed out by hook H1 (build tag verif): requirement-to-edge matching, satisfaction (node-semver), completeness, reachability, reference pick, one-name-per-directory, Node's walk-up lookup",
          "Exploration: every version of every generated universe (base, alias-collision and bundled strata) is resolved through a step-budgeted client and the returned graph plus install tree are checked against G1-G4/T1-T2; violating universes are shrunk before being reported.",
          "node-semver adapter trusted after self-test; tree clauses only without bundled packages and outside the alias-collision stratum; resolutions exhausting the step budget belong to C04.", "§6 C06"),
+ "C07": ("runtime invariant monitor on every graph returned by the Maven resolver over generated universes, with a tracing client that observes the resolver's retry passes: one version per artifact, nearest-wins (strict on single-pass, trace-based on multi-pass), range containment (Maven VersionRange), management, exclusions, root-only scopes, war/ear/rar",
+         "Exploration: every version of every generated universe is resolved through a step-budgeted tracing client; clauses M1-M7 are evaluated on the returned graph and the trace; violating universes are shrunk.",
+         "Maven 3.8.7 VersionRange answers range questions (batched); nearest-wins is asserted only in the forms that the accumulated-requirements retry loop satisfies (DESIGN §6 C07).", "§6 C07"),
+ "C13": ("runtime metamorphic monitor: Canon on a graph and on its relabelings (node renumbering, edge/error shuffles) must agree or both fail; idempotence and conservation of nodes, errors, edges; a defined small space enumerated completely plus random graphs",
+         "Enumerates a precisely defined sub-space of small rooted graphs (all labelings over {a@1,a@2}, edge sets, optional parallel edge and node error, all (n-1)! relabelings) completely (exhaustive: true, size cross-checked against a closed formula) and 20 relabelings each of random graphs up to 40 nodes.",
+         "Fresh graphs are built for every Canon call; conservation fingerprints are computed by the harness from its own description of the input.", "§6 C13"),
 }
 NOT_YET = {}
 
